@@ -1,8 +1,10 @@
+\* the well-scoped structures, one JSON line each, for the replay on the real language services
 INIT Init
 NEXT Next
 CONSTANTS
   Names = {"a", "b"}
   MaxCost = 3
   Directed = TRUE
+  NestedOrFixed = FALSE
 INVARIANTS RT GenSound Emit
 CHECK_DEADLOCK FALSE
